@@ -275,7 +275,10 @@ def run_one(rng, ctx):
     seen = set()
     kw_coll = any(s_["op"] == "map_blocks_kwarg" for s_ in steps)
     for kind, msg, mech in problems:
-        if kw_coll and (mech.startswith("structure:dangling_dep") or mech.startswith("interpret:raise:TypeError:numpy_ndarray_object")):
+        if kw_coll and mech.startswith("interpret:raise:TypeError:numpy_"):
+            # a record whose "function" is a piece of data ('numpy.ndarray' / 'numpy.float64' / 'numpy.int64' object is not callable)
+            mech = "interpret:raise:TypeError:numpy_ndarray_object:collection_kwarg"
+        elif kw_coll and (mech.startswith("structure:dangling_dep") or mech.startswith("structure:duplicate_key_different_content")):
             mech += ":collection_kwarg"  # recorded finding: records of a Blockwise holding a dask collection in its kwargs
         if mech in seen:
             continue
